@@ -73,6 +73,14 @@ Swallowers(DD, fx) ==
             \/ fx[y][1] = "unwind"
             \/ (fx[y][1] = "exit" /\ fx[y][3] = NoneV
                 /\ ~AllowNone(DD, <<fx[y][2][1], fx[y][2][2]>>, fx[y][2][3]))}}
+    \* ... or x's own handler swallowed a failure of x's own formula (a name that could not
+    \* be resolved, a raise): nothing links the value to what failed either
+    \cup {fx[j][2] : j \in {x \in ExitIdx(fx) :
+            LET m == fx[x][2] IN
+            /\ NodeExists(DD, m)
+            /\ FRec(DD, CellRecOf(DD, <<m[1], m[2]>>, m[3])).catch
+            /\ Len(m[4]) = Len(FRec(DD, CellRecOf(DD, <<m[1], m[2]>>, m[3])).ps)
+            /\ IsErr(RawDen(DD, m))}}
 
 RECURSIVE TaintClosure(_, _, _)
 TaintClosure(DD, held, t) ==
